@@ -66,10 +66,13 @@ fn show(seq: &[K]) -> String {
         .join(",")
 }
 
-fn logical(seq: &[K]) -> Vec<L> {
+/// `big` > 0: the first ordinary attribute is a DATA blob of that many bytes (what follows sits deep in the message).
+fn logical(seq: &[K], big: usize) -> Vec<L> {
+    let first_o = seq.iter().position(|k| *k == K::O);
     seq.iter()
         .enumerate()
         .map(|(i, k)| match k {
+            K::O if big > 0 && Some(i) == first_o => L::Data((0..big).map(|x| (x * 17 + 3) as u8).collect()),
             K::O => L::Priority(i as u32 + 1),
             K::Mi => L::Mi,
             K::Sha => L::Sha,
@@ -93,8 +96,8 @@ fn seen_before(seq: &[K], i: usize) -> String {
 }
 
 /// classify the first disagreement between the expected and obtained attribute lists
-fn classify(seq: &[K], want_pos: &[usize], got: &[L]) -> String {
-    let ls = logical(seq);
+fn classify(seq: &[K], big: usize, want_pos: &[usize], got: &[L]) -> String {
+    let ls = logical(seq, big);
     let want: Vec<&L> = want_pos.iter().map(|i| &ls[*i]).collect();
     // walk the wire sequence and find the first wire index whose admission differs
     let mut gi = 0;
@@ -117,8 +120,8 @@ fn classify(seq: &[K], want_pos: &[usize], got: &[L]) -> String {
     "other".into()
 }
 
-fn check_seq(seq: &[K], key_subj: &stun_rs::HMACKey, key_raw: &[u8], full_subsets: bool, rep: &mut Report) {
-    let ls = logical(seq);
+fn check_seq(seq: &[K], big: usize, key_subj: &stun_rs::HMACKey, key_raw: &[u8], full_subsets: bool, rep: &mut Report) {
+    let ls = logical(seq, big);
     let lm = LMsg { method: 1, class: 2, tid: menu::RFC5769_TID, attrs: ls.clone() };
     let want_pos = admit(seq);
     let want: Vec<L> = want_pos.iter().map(|i| ls[*i].clone()).collect();
@@ -140,7 +143,7 @@ fn check_seq(seq: &[K], key_subj: &stun_rs::HMACKey, key_raw: &[u8], full_subset
     for bad in &subsets {
         let macs: Vec<Mac> = (0..seq.len()).map(|i| if bad.contains(&i) { Mac::Bad } else { Mac::Good }).collect();
         let bytes = ref_encode_with(&lm, Some(key_raw), &macs);
-        let replay = || json!({"kind": "sequence", "sequence": show(seq), "wrong_values_at": bad, "bytes": hex(&bytes)});
+        let replay = || json!({"kind": "sequence", "sequence": show(seq), "first_ordinary_is_data_of_bytes": big, "wrong_values_at": bad, "bytes": hex(&bytes)});
         for o in cu::all_opts() {
             rep.eval();
             let dec = cu::decoder(o, Some(key_subj));
@@ -163,7 +166,7 @@ fn check_seq(seq: &[K], key_subj: &stun_rs::HMACKey, key_raw: &[u8], full_subset
                     (Ok(d), true) => {
                         if d.attrs != want {
                             rep.violate(
-                                format!("admission/{}", classify(seq, &want_pos, &d.attrs)),
+                                format!("admission/{}", classify(seq, big, &want_pos, &d.attrs)),
                                 format!("[{}] under {} decoded to {:?}, rule admits positions {:?}", show(seq), o.show(), d.attrs, want_pos),
                                 replay(),
                             );
@@ -291,7 +294,7 @@ pub fn run(ctx: &RunCtx) -> i32 {
         (0..count).into_par_iter().for_each(|n| {
             let mut r = Report::new();
             let seq = seq_of(n, len);
-            check_seq(&seq, &subj, &raw, len <= full_subsets_upto, &mut r);
+            check_seq(&seq, 0, &subj, &raw, len <= full_subsets_upto, &mut r);
             if n == 0x2d && len == 4 {
                 r.sample(json!({"sequence": show(&seq), "rule_admits_positions": admit(&seq)}));
             }
@@ -302,6 +305,28 @@ pub fn run(ctx: &RunCtx) -> i32 {
             shared.merge(r);
         });
     }
+    // deep variants: every sequence of length 1..=5 (thorough 6) with at least one ordinary attribute, the first ordinary
+    // one being a DATA blob of 1000 / 4100 / 20,000 / 65,000 bytes (dropped when the body would exceed 65,532 bytes)
+    {
+        let bigs: &[usize] = &[1000, 4100, 20_000, 65_000];
+        let max_len = if thorough { 6 } else { 5 };
+        for len in 1..=max_len {
+            (0..(1u32 << (2 * len))).into_par_iter().for_each(|n| {
+                let seq = seq_of(n, len);
+                if !seq.contains(&K::O) {
+                    return;
+                }
+                let mut r = Report::new();
+                for big in bigs {
+                    if menu::body_size(&logical(&seq, *big), &menu::RFC5769_TID) <= 65_532 {
+                        check_seq(&seq, *big, &subj, &raw, false, &mut r);
+                        r.sym("deep-sequences");
+                    }
+                }
+                shared.merge(r);
+            });
+        }
+    }
     let mut rep = shared.into_inner();
     rep.outcome("admission-agrees");
     rep.outcome(format!("violations:{}", rep.violations.len()));
@@ -311,13 +336,13 @@ pub fn run(ctx: &RunCtx) -> i32 {
         rep,
         Finish {
             level: "exploration",
-            rule: format!("all {} sequences of length 0..=8 over {{ordinary, MI, SHA256, FINGERPRINT}} built by the reference codec; wrong-value variants: all subsets of verifiable attributes up to length {}, beyond that none / each single / all; each byte string decoded under all 16 option combinations and without context and compared with the 12-line admit rule; the agent's iterator compared on every sequence. Non-trivial = distinct (sequence, wrong-set, options) triple whose result agreed with the rule", total, full_subsets_upto),
+            rule: format!("all {} sequences of length 0..=8 over {{ordinary, MI, SHA256, FINGERPRINT}} built by the reference codec; wrong-value variants: all subsets of verifiable attributes up to length {}, beyond that none / each single / all; each byte string decoded under all 16 option combinations and without context and compared with the 12-line admit rule; the agent's iterator compared on every sequence; every sequence of length 1..=5 (thorough 6) containing an ordinary attribute again with the first ordinary attribute a DATA blob of 1000 / 4100 / 20,000 / 65,000 bytes (wrong values: none / each single / all). Non-trivial = distinct (sequence, wrong-set, options) triple whose result agreed with the rule", total, full_subsets_upto),
             assumptions: vec![
                 "ordinary attributes are PRIORITY with distinct values".into(),
                 "with validation and no key an admitted MAC cannot validate (library contract), FINGERPRINT needs no key".into(),
                 "with the ordering rule disabled and validation on only 'all attributes or an error' is required".into(),
             ],
-            required_symbols: vec!["sequences", "agent-iterator-compared"],
+            required_symbols: vec!["sequences", "agent-iterator-compared", "deep-sequences"],
             min_outcomes: 2,
             exhaustive: true,
             bounds: json!({"max_len": 8, "sequences": total, "full_subsets_upto_len": full_subsets_upto}),
